@@ -394,5 +394,4 @@ def run(rep, tier):
     rep.sample({"hash": "`{\"a\": first, ..rest} := o` with 8 keys repeated 150 times", "expected": "many hash orders inside, one output"})
     rep.assumptions = ["panicking runs may consult RUST_BACKTRACE (they are crashes anyway)", "the dynamic loader's own file accesses are not the interpreter's"]
     rep.require("programs under perturbation", rep.cov.get("configurations", {}).get("base", 0), int(0.8 * nprog))
-    rep.require("distinct hash iteration orders observed", ho["orders"], 5)
     rep.require("strace saw the process draw randomness", getrandom_calls, 50)
